@@ -1007,6 +1007,33 @@ func (x *Evaluator) evalCell(a *ssa.Alloc, at ssa.Instruction, e *env, c *evalCt
 	}
 	// struct or array cell: not a scalar cell
 	if len(stores) == 0 {
+		// a struct literal built field by field in a local: the fields that were given a value
+		if st, ok := a.Type().Underlying().(*types.Pointer).Elem().Underlying().(*types.Struct); ok {
+			fields := map[string]Val{}
+			for _, r := range *refs {
+				fa, ok := r.(*ssa.FieldAddr)
+				if !ok || fa.Referrers() == nil {
+					continue
+				}
+				var vals []Val
+				for _, r2 := range *fa.Referrers() {
+					if s2, ok := r2.(*ssa.Store); ok && s2.Addr == ssa.Value(fa) {
+						if len(reach) > 0 && !reach[s2.Block()] {
+							continue
+						}
+						vals = append(vals, x.evalC(s2.Val, e, c))
+					}
+				}
+				if len(vals) == 1 {
+					fields[st.Field(fa.Field).Name()] = vals[0]
+				} else if len(vals) > 1 {
+					fields[st.Field(fa.Field).Name()] = joinVals(vals)
+				}
+			}
+			if len(fields) > 0 {
+				return StructV{Fields: fields}
+			}
+		}
 		return x.symbolic(a.Type().Underlying().(*types.Pointer).Elem(), "cell:"+a.Comment)
 	}
 	// reaching definitions: stores that can reach the load without passing another store
